@@ -29,6 +29,16 @@ CHECKS = {
               "its arguments (ast effect summaries), witnesses of the two recorded findings and of the repaired Union defect; model tied "
               "to the code on a malformed + near-miss stream; conforms()/input-mutation oracle"),
         technique='Lean 4 proof over a hand model + effect summaries + differential correspondence', ref='4 C05'),
+    'C09': dict(
+        text=("Lean theorems about the constructor step of the generated loader: exact MissingFields list (class + exactly the absent "
+              "required constructor fields), init=False never demanded, defaulted never missing, on success every field holds the last "
+              "supplied value or its default; model tied to the code by exhaustive key-subset correspondence (power set up to 10 keys)"),
+        technique='Lean 4 proof over a hand model + exhaustive subset correspondence', ref='4 C09'),
+    'C10': dict(
+        text=("Lean theorems (induction over the document): RAISE never accepts a document containing an unknown key and names one of "
+              "them and the class; catch-all captures exactly the unknown pairs in order minus the tag key; unknown keys never change "
+              "mapped fields; model tied to the code over policy x depth x repetition"),
+        technique='Lean 4 proof over a hand model + differential correspondence', ref='4 C10'),
     'C08': dict(
         text=("Lean theorems about the model of string_conv / object_path (casing round trips for canonical snake names, "
               "tokenizer facts), model tied to the code by exhaustive small-alphabet correspondence plus end-to-end alias/path checks"),
